@@ -183,10 +183,28 @@ def main(argv):
             # a listed finding is reported whenever its class was observed (or its witness re-confirmed)
             if ctx.known_hits.get(k["id"]):
                 print(f"KNOWN-FINDING: property={prop} {k['id']} {k['what']} ({ctx.known_hits[k['id']]} cases this run)")
-        if violations:
-            # report the first (smallest op) violation with a replay file
+        prop_viol = [f for f in violations if f.kind == "property-failure"]
+        if violations and not prop_viol:
+            # only the model-to-code correspondence is broken: every generated input was also judged by the property
+            # oracles and none of them fails the property itself
             violations.sort(key=lambda f: len(f.op or ""))
             f = violations[0]
+            pl = f.payload(prop, tier, seed)
+            pl["correspondence"] = f.extra.get("stream", "model-vs-implementation")
+            pl["what"] = ("the correspondence between the Lean model and the implementation no longer checks (" + f.what + "); the search over %d generated inputs "
+                          "found no input on which the property itself fails" % ctx.evaluations)
+            pl["other_failures"] = [v.payload(prop, tier, seed) for v in violations[1:6]]
+            pl["n_failures"] = len(violations)
+            if problems:
+                pl["broken_obligations"] = problems
+            path = core.write_replay(prop, pl)
+            print(f"VIOLATION property={prop} replay={path} no-failing-input-found")
+            rc = 1
+        elif violations:
+            # report the first (smallest op) violation with a replay file
+            violations = prop_viol + [f for f in violations if f.kind != "property-failure"]
+            prop_viol.sort(key=lambda f: len(f.op or ""))
+            f = prop_viol[0]
             if hasattr(mod, "shrink"):
                 try:
                     f = mod.shrink(ctx, f) or f
